@@ -1296,26 +1296,32 @@ LEVEL_TEXT = ("Google style: a machine-checked round-trip theorem at character l
               "aliases of the keyword table regenerated from google.py; optional section titles) and admonition sections satisfying a decidable "
               "well-formedness predicate: parse_google(render(secs)) = secs (kinds in written order, titles, names, annotations written or taken "
               "from the signature, defaults, multi-line / blank-line / deeper-indented descriptions), plus no-leak (section i parses as it does alone) "
-              "and signature-fallback corollaries, and two refutation witnesses (findings F1, F2) proved by computation. The model (parse_google main "
-              "loop, block readers, every item reader, the two regexes hand-compiled, Examples reader, all five item options) is tied to the code by "
-              "differential runs on rendered and perturbed docstrings, its string functions to CPython str/re, its renderer and expectation to the "
-              "harness's. Numpy and Sphinx styles and every documented option are covered by direct evaluation (written structure vs as_dict), not by theorems.")
+              "and signature-fallback corollaries, and refutation witnesses for findings F1, F2 proved by computation. Sphinx style: a partial "
+              "round-trip theorem (param/var/raises/returns fields under every alias, any order, multi-line descriptions; result grouped in "
+              "Sphinx's fixed order) and the F8 witness. The models (parse_google main loop, block readers, every item reader, both regexes "
+              "hand-compiled, Examples reader, five item options; parse_sphinx with all seven field readers and their dictionaries) are tied to "
+              "the code by differential runs on rendered and perturbed docstrings, their string functions to CPython str/re, their renderers and "
+              "expectations to the harness's. Numpy style and every documented option are covered by direct evaluation "
+              "(written structure vs as_dict) only.")
 LEVEL_NOTE = ("Trusted: Coq kernel, extraction, this harness (generators, renderers = documented syntax, expectation, canonicalisation). Annotation "
               "strings are compared as str(parse_docstring_annotation(x)) - expression parsing/printing is C03's subject; generated annotations are in "
-              "canonical form. The theorem covers default options, printable ASCII, no fenced code blocks in free text; Examples sections, "
-              "returns_multiple_items=False / returns_named_value=False modes and ignore_init_summary are in the model and the differential check but not "
-              "in the theorem. Numpy/Sphinx: no Coq model (partial): only direct evaluation; Sphinx descriptions are compared whitespace-normalised "
-              "(continuation lines are joined with blanks by design) and Sphinx sections in the parser's fixed order. Eight findings are recorded "
-              "(C13-F1..F8) with exact defect-adjusted expectations, so any other deviation still alarms.")
+              "canonical form. The Google theorem covers default options, printable ASCII, no fenced code blocks in free text; Examples sections, "
+              "returns_multiple_items=False / returns_named_value=False modes are in the model and the differential check but not in the theorem; "
+              "ignore_init_summary and returns_type_in_property_summary are checked directly only. Sphinx theorem is partial: no separate "
+              ":type:/:vartype:/:rtype: fields, distinct names, no blank lines inside descriptions (the model has all of them). Numpy: no Coq model "
+              "(its three regexes and textwrap.dedent were not hand-compiled): direct evaluation only. Sphinx descriptions are compared "
+              "whitespace-normalised in the direct check (continuation lines are joined with blanks by design), exactly in the theorem instances. "
+              "Eight findings (C13-F1..F8) carry exact defect-adjusted expectations, so any other deviation still alarms.")
 MODEL = ("Model.C13_run", "run_C13")
-COQ_TARGETS = ["Proofs/C13_strings.vo", "Proofs/C13_google.vo"]
+COQ_TARGETS = ["Proofs/C13_strings.vo", "Proofs/C13_google.vo", "Proofs/C13_sphinx.vo"]
 RULE = ("seeded generation of written structures: parent (function with 0-4 annotated/defaulted/starred parameters and name/tuple return, generator "
         "or iterator, class/module with attributes, __init__, property, none) x 0-6 sections drawn from the kinds fitting the parent (10% any kind) in any "
         "order, 1-4 items each, names from the signature or unknown, annotations from 15 spellings, descriptions of 1-6 lines with blank lines, "
         "deeper indentation, colons, '):', section keywords, markup; section titles, aliases and letter case; admonitions with titles; Examples with "
         "prose/console chunks and doctest flags; free text with paragraphs, colon lines and fenced code; Google indentation 1/2/3/4/8; docstring "
         "embedded as in source (cleandoc). Rendered per style in the documented syntax, parsed under random documented options (Google 8, Numpy 3, "
-        "Sphinx 1). Second stream: perturbed renderings (dropped/added blank lines, shifted indentation, removed colons) for model-vs-code only. "
+        "Sphinx 1); Sphinx: free text then 0-6 groups of param/type, var/vartype, raises, returns/rtype fields under random aliases. Second stream: "
+        "perturbed renderings (dropped/added blank lines, shifted indentation, removed colons, duplicated or foreign fields) for model-vs-code only. "
         "non-trivial = at least one non-text section; distinct by (style, options, text)")
 TRUSTED = ["abstraction: harness/props/c13.py ctx_sexp / wsecs_sexp map the generated parent and written structure to the model's pctx / list wsec",
            "translator harness/props/c13.py:translate (keyword tables from the _section_kind dict literals; regex texts and Sphinx field-name sets "
@@ -1579,6 +1585,27 @@ def explore_numpy(ctx, n: int):
         ctx.count("numpy_cases")
 
 
+def sfields_sexp(doc: dict):
+    """The written Sphinx field list as a term of the Coq type [list sfield]; None when it uses :type:/:vartype:/:rtype: fields,
+    or when there is no field at all."""
+    out = []
+    for f in doc["fields"]:
+        k = f["f"]
+        if "desc" in f and "" in f["desc"]:
+            return None                       # blank lines inside a description are not part of the Coq structure
+        if k == "param":
+            out.append(["param", f["field"], _o(f["inline"]), f["name"], f["desc"][0], f["desc"][1:]])
+        elif k == "var":
+            out.append(["var", f["field"], f["name"], f["desc"][0], f["desc"][1:]])
+        elif k == "raises":
+            out.append(["raises", f["field"], f["exc"], f["desc"][0], f["desc"][1:]])
+        elif k == "returns":
+            out.append(["returns", f["field"], f["desc"][0], f["desc"][1:]])
+        else:
+            return None
+    return out or None
+
+
 def sphinx_shape(secs: list) -> list:
     """Canonicalised implementation sections -> the shape the model prints (descriptions verbatim)."""
     return model_shape(secs)
@@ -1632,12 +1659,32 @@ def explore_sphinx(ctx, n: int, with_model: bool = True):
             ctx.observe("sphinx_field", f["f"])
         ctx.observe("sphinx_parent", doc["parent"]["kind"])
         ctx.count("sphinx_cases")
+        doc["_rendered"] = (text,)
         cases.append((opts, doc, text, parent_obj, raw))
         if with_model and i % 2 == 0:
             t2 = perturb_sphinx(ctx.rng, lines)
             cases.append((opts, doc, t2, parent_obj, _impl(t2, parent_obj, "sphinx", opts)))
     if not with_model:
         return
+    # (C) Sphinx written structure: render / expectation / theorem instances on the representable documents
+    spec = []
+    for o, d, t, p, raw in cases:
+        fs = sfields_sexp(d)
+        if fs is not None and t in d.get("_rendered", ()):
+            spec.append((o, d, t, raw, fs))
+    souts = ctx.model([["sspec", ctx_sexp(d["parent"]), d["parent"]["kind"] in ("func", "gen", "init", "prop"), d["text"], fs]
+                       for o, d, t, raw, fs in spec])
+    for (o, d, t, raw, fs), (mr, me, mw) in zip(spec, souts):
+        ctx.count("sphinx_spec_cases")
+        ctx.observe("sphinx_wf", mw)
+        case = _case_json("sphinx", o, d, t)
+        if mr != render_sphinx(d):
+            ctx.tie_failure("correspondence", "render_sphinx(model) vs harness renderer", {"model": mr, "harness": render_sphinx(d)}, case)
+        if mw:
+            ctx.count("sphinx_theorem_instances")
+            if raw and raw[0] == "exception" or me != sphinx_shape(raw):
+                ctx.tie_failure("correspondence", "wf_sphinx document: implementation differs from expect_sphinx(model)",
+                                {"model_expect": me, "impl": raw}, case)
     outs = ctx.model([["sparse", ctx_sexp(d["parent"]), d["parent"]["kind"] in ("func", "gen", "init", "prop"), griffe.Docstring(t).lines]
                       for o, d, t, p, raw in cases])
     for (o, d, t, p, raw), mo in zip(cases, outs):
